@@ -547,6 +547,9 @@ def _derive(rec):
         'explin': ('exp', ('+', ('*', B('b1'), V('x1')), ('*', B('b2'), V('x2')))),
         'logit': ('loglogit', ('num', 1), ((1, ('*', B('b1'), V('x1')), None), (2, ('*', B('b2'), V('x2')), None))),
         'ratio': ('/', ('+', ('num', 1.0), ('*', B('s'), V('x1'))), ('+', ('num', 2.0), ('**', V('x2'), ('num', 2.0)))),
+        # the same linear form written with the dedicated operator (parameters and variables met in non-sorted order)
+        'linutil': ('linutil', (('s', 'x2'), ('b1', 'x1'))),
+        'linutil3': ('+', ('linutil', (('b2', 'x1'), ('b1', 'x2'), ('s', 'x1'))), ('*', B('b1'), B('s'))),
     }
     for fname, f in pool.items():
         for name in ('b1', 'b2', 's', 'x1', 'x2'):
@@ -570,7 +573,8 @@ def _derive(rec):
                 rec.case(('derive', fname, name, pi) if depends else None, (fname, name, pi, [round(v, 9) for v in got]),
                          outcome=('derive', depends))
                 if any(abs(g - w) > 1e-9 + 1e-8 * max(abs(g), abs(w)) for g, w in zip(got, want)):
-                    rec.violation(f'C10|derivative-value|derive:{fname}:{"param" if name in p else "variable"}',
+                    fam = 'bioLinearUtility' if fname.startswith('linutil') else fname
+                    rec.violation(f'C10|derivative-value|derive:{fam}:{"param" if name in p else "variable"}',
                                   f'Derive({fname}, {name}) point {pi}: {got} expected {want}', case, expected=want, observed=got)
     rec.sample(dict(part='derive', formulas=list(pool)))
 
